@@ -3,6 +3,8 @@ event creation, left flag, collapsed edges, no reader of ring orientation)."""
 from rules import oprules, fillrules
 from rules.common import all_statements
 
+from rules import looprules
+
 LEVEL = 'other'
 EXPLANATION = __doc__
 
@@ -62,3 +64,4 @@ def run(ctx, rep):
     for (name, cn, loc) in orient:
         rep.ob('W-winding', 'orientation-call:%s' % name, False, '%s calls %s on operand rings' % (name, cn), loc=loc, reason='inventory')
     rep.ob('W-winding', 'no-orientation-of-input-rings', not orient, '')
+    looprules.check_loops(ctx, rep)
